@@ -11,6 +11,8 @@ def get_n_tokens_before_and_after_tokens_bounded_by_tokens(iToken, lTokens, lBet
 
     for iIndex in lIndexes:
         iLine = oTokenMap.get_line_number_of_index(iIndex)
-        lReturn.append(tokens.New(iIndex - iToken, iLine, lAllTokens[iIndex - iToken : iIndex + iToken + 1]))
+        iStart = iIndex - iToken
+        if iStart >= 0:
+            lReturn.append(tokens.New(iStart, iLine, lAllTokens[iStart : iIndex + iToken + 1]))
 
     return lReturn
